@@ -28,9 +28,33 @@ def embed_op(O: np.ndarray, targets: Sequence[int], dims: Sequence[int]) -> np.n
     return full.reshape(D, D)
 
 
+def left_apply(O: np.ndarray, targets: Sequence[int], dims: Sequence[int], A: np.ndarray) -> np.ndarray:
+    """embed_op(O, targets, dims) @ A without building the embedded operator (tensor contraction over the target axes;
+    self_check compares it with the dense product)."""
+    n = len(dims)
+    targets = list(targets)
+    rest = [i for i in range(n) if i not in targets]
+    perm = targets + rest
+    dt = int(np.prod([dims[i] for i in targets])) if targets else 1
+    if O.shape != (dt, dt):
+        raise ValueError(f"operator shape {O.shape} does not fit target dimensions {[dims[i] for i in targets]}")
+    cols = A.shape[1]
+    t = A.reshape(list(dims) + [cols]).transpose(perm + [n])
+    shp = t.shape
+    t = (O @ t.reshape(dt, -1)).reshape(shp)
+    inv = list(np.argsort(perm))
+    return t.transpose(inv + [n]).reshape(A.shape)
+
+
+def conj_apply(O, targets, dims, rho) -> np.ndarray:
+    """(O x I) rho (O x I)^dagger"""
+    O = np.asarray(O, dtype=complex)
+    A = left_apply(O, targets, dims, np.asarray(rho, dtype=complex))
+    return left_apply(O, targets, dims, A.conj().T).conj().T
+
+
 def spec_apply(rho, dims, targets, O, renormalise: bool):
-    U = embed_op(np.asarray(O, dtype=complex), targets, dims)
-    out = U @ rho @ U.conj().T
+    out = conj_apply(O, targets, dims, rho)
     if renormalise:
         tr = np.trace(out).real
         if tr > 1e-14:
@@ -41,8 +65,7 @@ def spec_apply(rho, dims, targets, O, renormalise: bool):
 def spec_kraus(rho, dims, targets, Ks):
     out = np.zeros_like(rho)
     for K in Ks:
-        U = embed_op(np.asarray(K, dtype=complex), targets, dims)
-        out = out + U @ rho @ U.conj().T
+        out = out + conj_apply(K, targets, dims, rho)
     return out
 
 
@@ -69,8 +92,7 @@ def spec_project(rho, dims, x: int, outcome: int):
     P = np.zeros((dims[x], dims[x]), dtype=complex)
     if 0 <= outcome < dims[x]:
         P[outcome, outcome] = 1
-    U = embed_op(P, [x], dims)
-    out = U @ rho @ U
+    out = conj_apply(P, [x], dims, rho)
     p = np.trace(out).real
     return (out / p if p > 1e-15 else out), p
 
@@ -83,14 +105,12 @@ def spec_remove(rho, dims, x: int):
 def spec_povm_probs(rho, dims, targets, Ms) -> np.ndarray:
     ps = []
     for M in Ms:
-        U = embed_op(np.asarray(M, dtype=complex), targets, dims)
-        ps.append(np.trace(U @ rho @ U.conj().T).real)
+        ps.append(np.trace(conj_apply(M, targets, dims, rho)).real)
     return np.array(ps)
 
 
 def spec_povm_post(rho, dims, targets, M):
-    U = embed_op(np.asarray(M, dtype=complex), targets, dims)
-    out = U @ rho @ U.conj().T
+    out = conj_apply(M, targets, dims, rho)
     p = np.trace(out).real
     return (out / p if p > 1e-15 else out), p
 
@@ -201,6 +221,10 @@ def self_check() -> List[str]:
     rho /= np.trace(rho)
     U = np.linalg.qr(rng.normal(size=(4, 4)) + 1j * rng.normal(size=(4, 4)))[0]
     out = spec_apply(rho, dims, [2, 1], U, False)
+    for tg, Op in (([2, 1], U), ([0], rng.normal(size=(3, 3)) + 1j * rng.normal(size=(3, 3))), ([1, 0, 2], rng.normal(size=(12, 12)) + 0j)):
+        E = embed_op(np.asarray(Op, dtype=complex), tg, dims)
+        if close(conj_apply(Op, tg, dims, rho), E @ rho @ E.conj().T) > 1e-10:
+            errs.append(f"conj_apply differs from the dense embedded product for targets {tg}")
     if abs(np.trace(out) - 1) > 1e-10:
         errs.append("spec_apply does not preserve the trace under a unitary")
     # ptrace of a product
